@@ -10,7 +10,7 @@ from engine_common import M, seq
 from engine_impl import run_scenario
 
 MANIFEST = {
-    "text": "PARTIAL (open finding: a refused abort() in the exit sleep still overwrites status and reason; requests ACCEPTED in the exit sleep may or may not be reflected in the RunStop). Lean (Props/C02.lean, over the shared "
+    "text": "FULL for the modelled engine, under the ruling that a request ACCEPTED in the exit sleep (after the plan's last message) may or may not be reflected in the RunStop (the defect 'a REFUSED abort() still overwrote status and reason' was repaired in /repo, commit 7236275; Counterexamples/C02.lean now proves refused_request_stores_nothing). Lean (Props/C02.lean, over the shared "
     "program-counter model of RunEngine._run): C02_ladder -- leaveLoop stores exactly the status of the GENERATED except "
     "ladder of _run for every exception class, and with the current source that is the documented mapping (StopIteration/"
     "RequestStop -> success, FailedPause/RequestAbort/CancelledError/PlanHalt -> abort, everything else -> fail with the "
